@@ -73,6 +73,8 @@ def run(prog, R):
                     _walk(v)
         _walk(hs.j)
         lex_units = pairs | {x for x in single if x == "s"}
+        import scanners as _scn
+        _scn.unit_suffix_table(prog, R, "C10.1-units-agree", set(spec["units"]))
         R.ob("C10.1-units-agree", "lexer leaves exactly the unit spellings as separate identifier tokens", lex_units == set(spec["units"]), hs.at, f"lexer: {sorted(lex_units)}; specification: {sorted(spec['units'])}")
     # asg time unit map is the identity on names
     ex = prog.body(S2S + "expr_to_asg_texpr")
@@ -267,6 +269,28 @@ def run(prog, R):
         R.ob("C10.4-bitstring-accessors-agree", "BitString::str and BitString::value slice the same range", same, bs_.at, f"value: {cv}; str: {cs_}")
     else:
         R.ob("ANCHOR", "BitString::value / BitString::str", False)
+    qo = prog.body(TE + "QuoteOffsets::new")
+    if qo is None:
+        R.ob("ANCHOR", TE + "QuoteOffsets::new", False)
+    else:
+        # both spellings of a bit string ("0101" and '0101') have a value: the function that locates the quotes of a
+        # literal compares against both quote characters
+        qc = set()
+        def _wq(x):
+            if isinstance(x, dict):
+                if x.get("k") == "const" and x.get("ty") in ("u8", "char") and const_of(x) in (34, 39):
+                    qc.add(const_of(x))
+                for v in x.values():
+                    _wq(v)
+            elif isinstance(x, list):
+                for v in x:
+                    _wq(v)
+        _wq(qo.j)
+        for k_ in prog.bodies:
+            if k_.startswith(TE + "QuoteOffsets::new::{closure"):
+                _wq(prog.body(k_).j)
+        R.ob("C10.4-bitstring-accessors-agree", "QuoteOffsets::new accepts both quote characters", qc == {34, 39}, qo.at, f"quote characters compared: {sorted(chr(c) for c in qc)}" if qc == {34, 39} else
+             f"QuoteOffsets::new only knows the quote character(s) {sorted(chr(c) for c in qc)}: a bit string written with the other quote has no value and is dropped from the graph without a diagnostic")
     lk = prog.body("oq3_syntax::ast::expr_ext::Literal::kind")
     if lk:
         ps, _ = paths(prog, lk.npath)
